@@ -187,6 +187,14 @@ def _cap_and_policy(prog: Program, res: Result, lb: int):
     if not cap_branch:
         raise AnalysisError(f"{q}: definition of the right end under a borehole cap not found")
     for s in cap_branch:
+        alt = _first_over_minus_one(fi.node, s.value)
+        if alt is not None:
+            ok, detail = alt
+            res.ob("R02.2", f"right end under the cap: (first index whose field reaches max_boreholes) - 1, defaulting to one past the end ({detail})", ok, prog.loc(fi, s))
+            if not ok:
+                res.violation("R02.2", f"cap-first-over|{detail[:80]}", prog.loc(fi, s), q,
+                              f"the right end of the capped search is not the last field below max_boreholes: {detail}")
+            continue
         comp, how = _filtered_index_comp(fi.node, s.value)
         ok = False
         detail = "shape not understood"
@@ -246,9 +254,10 @@ def _cap_and_policy(prog: Program, res: Result, lb: int):
         br1 = [tr for k, tr, ln in st.trail if k.startswith(("sign(check_bracket(", "not (sign(check_bracket(")) and "min_height" in k]
         # classify by the signs assumed on the path
         s_low = st.sign_of(t0l)
-        unmet_small = s_low == frozenset("-") and _no_bracket(st, 2)
+        bracket_true = any(("check_bracket(" in k) and tr and not k.startswith("not (") for k, tr, ln in st.trail)
+        unmet_small = s_low == frozenset("-") and not bracket_true
         tm1 = [e.data[3] for e in p.evals() if len(p.evals()) >= 3][2:3]
-        unmet_large = bool(tm1) and st.sign_of(tm1[0]) == frozenset("+") and _no_bracket(st, 2) and not unmet_small
+        unmet_large = bool(tm1) and st.sign_of(tm1[0]) == frozenset("+") and not bracket_true and not unmet_small
         if not (unmet_small or unmet_large):
             continue
         n_pol += 1
@@ -349,6 +358,39 @@ def _filtered_index_comp(fn, value: ast.expr):
         if comp is not None:
             return comp, "last" if attr_chain(value.func) == "max" else "first"
     return None, None
+
+
+def _first_over_minus_one(fn, value: ast.expr):
+    """value is  F - 1  with  F = next((idx for idx, x in enumerate(D) if size(x) >= cap), DEFAULT)  -> (ok, detail) | None"""
+    if not (isinstance(value, ast.BinOp) and isinstance(value.op, ast.Sub) and isinstance(value.right, ast.Constant) and value.right.value == 1):
+        return None
+    f = value.left
+    if isinstance(f, ast.Name):
+        fname = f.id
+        for s in ast.walk(fn):
+            if isinstance(s, ast.Assign) and len(s.targets) == 1 and isinstance(s.targets[0], ast.Name) and s.targets[0].id == fname:
+                f = s.value
+    if not (isinstance(f, ast.Call) and attr_chain(f.func) == "next" and len(f.args) == 2 and isinstance(f.args[0], ast.GeneratorExp)):
+        return None
+    gen, default = f.args
+    g = gen.generators
+    if len(g) != 1 or len(g[0].ifs) != 1 or not (isinstance(g[0].iter, ast.Call) and attr_chain(g[0].iter.func) == "enumerate"):
+        return False, f"generator '{ast.unparse(gen)[:80]}' not understood"
+    t = g[0].ifs[0]
+    cap = "self.sim_params.max_boreholes"
+    okf = isinstance(t, ast.Compare) and len(t.ops) == 1 and ((isinstance(t.ops[0], (ast.GtE, ast.Gt)) and ast.unparse(t.comparators[0]) == cap) or (isinstance(t.ops[0], (ast.LtE, ast.Lt)) and ast.unparse(t.left) == cap))
+    if not okf:
+        return False, f"filter '{ast.unparse(t)}' does not select the fields that reach max_boreholes"
+    dname = ast.unparse(g[0].iter.args[0])
+    dtxt = ast.unparse(default).replace(" ", "")
+    if isinstance(default, ast.Name):
+        dn = default.id
+        for s in ast.walk(fn):
+            if isinstance(s, ast.Assign) and len(s.targets) == 1 and isinstance(s.targets[0], ast.Name) and s.targets[0].id == dn:
+                dtxt = ast.unparse(s.value).replace(" ", "")
+    if dtxt != f"len({dname})":
+        return False, f"when no field reaches the cap the default '{dtxt}' - 1 is not the last index (len({dname}) - 1): the largest candidate is silently dropped"
+    return True, ast.unparse(t)
 
 
 def _cap_filter_ok(fn, comp) -> tuple:
